@@ -58,7 +58,23 @@ func doArchive(st *Stack, op Op) Res {
 		m := members[i]
 		i++
 		b := m.D.Bytes()
-		hdr := &tar.Header{Typeflag: tar.TypeReg, Name: m.P, Size: int64(len(b)), Mode: 0o644, ModTime: time.Now()}
+		size := int64(len(b))
+		if op.Q == "stale" {
+			// the FileInfo was taken earlier than the file is opened (as `stfs operation archive` does:
+			// filepath.Walk first, os.Open later) and the file changed in between: it grew, it shrank,
+			// it was empty and has content now, it had content and is empty now
+			switch k := i - 1; k % 4 {
+			case 0:
+				size += 1 + int64(k*37%200)
+			case 1:
+				size = max(1, size-1-int64(k))
+			case 2:
+				size = 0
+			case 3:
+				size, b = max(1, size), nil
+			}
+		}
+		hdr := &tar.Header{Typeflag: tar.TypeReg, Name: m.P, Size: size, Mode: 0o644, ModTime: time.Now()}
 		return config.FileConfig{
 			GetFile: func() (io.ReadSeekCloser, error) { return rsc{bytes.NewReader(b)}, nil },
 			Info:    hdr.FileInfo(),
